@@ -162,7 +162,7 @@ def itext_refs(root):
     """ids referenced from body label/hint refs and bind message attributes"""
     refs = []
     for e in elements(root):
-        for attr in ("ref", "jr:constraintMsg", "jr:requiredMsg"):
+        for attr in ("ref", "jr:constraintMsg", "jr:requiredMsg", "jr:noAppErrorString"):
             if e.hasAttribute(attr):
                 v = e.getAttribute(attr)
                 if v.startswith("jr:itext('") and v.endswith("')"):
